@@ -138,3 +138,25 @@ Lemma hw_energy_period k w lk uk P c0 lo up x (n m l : Z) : 0 < P ->
   hw_energy Rops k w lk uk (KPeriodic P c0) (lo + IZR m * P) (up + IZR l * P) (x + IZR n * P) = hw_energy Rops k w lk uk (KPeriodic P c0) lo up x /\
   hw_force Rops k w lk uk (KPeriodic P c0) (lo + IZR m * P) (up + IZR l * P) (x + IZR n * P) = hw_force Rops k w lk uk (KPeriodic P c0) lo up x.
 Proof. intros HP. unfold hw_energy, hw_force. rewrite (hw_distance_period P c0 lo up x n m l HP). split; reflexivity. Qed.
+
+(* ------------------------------------------------------------------ unit vectors at the two singular geometries: the reported
+   gradient (hence the restraint force) is the null vector at coincident AND at exactly opposite vectors (never infinite) *)
+Lemma tiny28_pos : 0 < tiny28 Rops.
+Proof. unfold tiny28; cbn. apply Rdiv_lt_0_compat; lra. Qed.
+Lemma uv_grad_singular (a b : vec3 (T:=R)) : v3dot Rops a b = 1 \/ v3dot Rops a b = -1 -> uv_grad Rops a b = (0, 0, 0).
+Proof.
+  intros Hc. unfold uv_grad. cbn -[v3dot tiny28 v3scale]. pose proof tiny28_pos as Ht.
+  replace (Rltb (1 - v3dot Rops a b * v3dot Rops a b) (tiny28 Rops)) with true; [reflexivity|].
+  symmetry; apply Rltb_true. destruct Hc as [-> | ->]; lra.
+Qed.
+Lemma v3dot_opp_self (a : vec3 (T:=R)) : is_unit a -> v3dot Rops a a = 1 /\ v3dot Rops a (v3scale Rops (-1) a) = -1.
+Proof.
+  destruct a as [[x y] z]. unfold is_unit, v3norm2, v3dot, v3scale; cbn. intros H. split; [exact H | lra].
+Qed.
+Lemma hr_unit_singular_force k w (a : vec3 (T:=R)) : is_unit a ->
+  hr_force Rops PI k w KUnit (V3 a) (V3 a) = Some (V3 (- (1 / 2) * k / (w * w) * 0, - (1 / 2) * k / (w * w) * 0, - (1 / 2) * k / (w * w) * 0)) /\
+  hr_force Rops PI k w KUnit (V3 a) (V3 (v3scale Rops (-1) a)) = Some (V3 (- (1 / 2) * k / (w * w) * 0, - (1 / 2) * k / (w * w) * 0, - (1 / 2) * k / (w * w) * 0)).
+Proof.
+  intros Ha. destruct (v3dot_opp_self a Ha) as [H1 H2]. unfold hr_force. cbn [comp_lgrad].
+  rewrite (uv_grad_singular a a (or_introl H1)), (uv_grad_singular a _ (or_intror H2)). split; reflexivity.
+Qed.
